@@ -106,3 +106,41 @@ def tail_independence(rep, cfg, docs, tails, mode="san", base=None, lines=None):
                     rep.finding("bytes-after-the-input", "the result of edn_read(input, length) depends on the bytes after the input: %r followed by %r" % (docs[i][:60], tail[:20]),
                                 {"kind": "read", "config": cfg, "mode": mode, "input_hex": C.hexs(docs[i]), "tail_hex": C.hexs(tail), "expected": a, "observed": b})
     return found
+
+
+def grammar_verdicts(rep, cfg, docs, impl, model, diffs, classes, opt=0):
+    """Turns model-vs-library differences on plain reads (no registry) into concrete findings.
+
+    The Lean theorems `reader_accepts_exactly_the_grammar` (Edn.Properties.C03, all four configurations) and
+    `ill_formed_document_is_rejected_in_every_configuration` / the class theorems of Edn.Properties.C10 identify the model's verdict on a
+    document - accepted with this content, or rejected with this class - with the declarative grammar `Edn.Spec.FormX` of the configuration.
+    A document on which the library's verdict differs from the model's is therefore a concrete input on which the property fails, not merely
+    a broken correspondence.  `classes` selects which kinds of difference belong to the calling property.  Returns True if something was reported."""
+    from .. import corr as K
+    if opt & 8:
+        return False
+    found = False
+    seen = set()
+    for i in diffs:
+        a, m = impl[i] or "", model[i] or ""
+        if not a or not m:
+            continue
+        if m.startswith("err ") and a.startswith("ok "):
+            cls = "ill-formed-accepted"
+        elif m.startswith("ok ") and a.startswith("err "):
+            cls = "well-formed-rejected"
+        elif m.startswith("ok ") and a.startswith("ok ") and K.strip_ranges(a) != K.strip_ranges(m):
+            cls = "read-differently"
+        elif m.startswith("err ") and a.startswith("err ") and m.split(" ")[1:2] != a.split(" ")[1:2]:
+            cls = "wrong-error-class"
+        else:
+            continue
+        if cls not in classes or cls in seen:
+            continue
+        seen.add(cls)
+        found = True
+        d = docs[i]
+        rep.finding("grammar-verdict/" + cls,
+                    "by the grammar of this configuration (proved equal to the model's verdict) %r must read as %s; the library answers %s" % (d[:120], m[:120], a[:120]),
+                    {"kind": "read", "config": cfg, "opt": opt, "input_hex": C.hexs(d), "expected": m[:2000], "observed": a[:2000]})
+    return found
